@@ -1,2 +1,199 @@
-(* C01 -- theorems land here *)
-Require Import XV.Differ XV.Spec.
+(* C01 -- "An edit script, applied to the left document, yields the right
+   document: for any two documents and any combination of diff options, applying
+   the edit script returned by the diff API to the left document with the patch
+   API completes without error and produces a tree equal to the right document in
+   tag names, attribute sets and values, text, tail text, comments and child
+   order.  Equality ignores only namespace prefix spelling and the distinction
+   between absent and empty text."
+
+   Models (each validated against the Python implementation by differential
+   testing): XV.Pipeline.diff_model = XV.Matcher.match_nodes (Differ.match)
+   followed by XV.Differ.diff_given (Differ.diff); the similarity of two node
+   texts is an ORACLE (sim, sim_ltb, sim_leb, sim_is_one, zero, one, leaf_sim,
+   combine); the option record o carries F, uniqueattrs, fast_match, best_match
+   and ignored_attrs.  XV.Spec.run_spec is the documented meaning of the actions
+   (a strict interpreter: None as soon as a documented precondition fails);
+   XV.PatcherDSL + XV.Gen.PatcherProg is the shipped patcher (handler programs
+   GENERATED from xmldiff/patch.py); XV.Render turns identity-level actions into
+   the namedtuples the differ yields (nodes as getpath strings).
+
+   Hypotheses, in plain words:
+   - the two oracle laws of the matcher theorem:  not (F <= 0)  and  0 != 1.0;
+   - wf_forest f root (XV.WF): the document is a finite tree with tidy ids, the
+     root is an element without tail, comments have no children/attributes,
+     attribute names are distinct;
+   - ns_prologue lns rns <> None: no prefix is bound to two different URIs by the
+     two root namespace maps (otherwise Differ.diff raises RuntimeError);
+   - valid_matching L R rootL rootR m (XV.WF), for C01_every_matching: what
+     Differ.match() delivers (C07): injective, contains the root pair, only
+     document nodes, never pairs a comment with an element.
+
+   Conclusion.  tree_equivb (XV.Forest) compares the two trees node by node: same
+   tag, same attribute set and values (sorted lists), same text, same tail (the
+   tail of the root is outside the document), same children in the same order;
+   None and "" are identified.  Tags are Clark names, so prefix spelling is
+   immaterial.  Attributes in o's ignored_attrs are filtered out on both sides
+   (node_attribs_d): with ignored_attrs = [] the comparison is on the full
+   attribute sets (C01_no_ignored).  See C13 for the ignored attributes.
+
+   - C01_script_sound: the whole pipeline.
+   - C01_no_ignored: the same with ignored_attrs = [], the filter removed.
+   - C01_every_matching: the differ half for EVERY valid matching, hence for all
+     matcher options at once (F, uniqueattrs, fast_match, best_match, ratio_mode
+     only influence the matching).
+   - C01_roundtrip: "diff then patch": the shipped patcher applied to the rendered
+     script returns (without error) a tree pointwise equal to the differ's final
+     tree, hence equal to the right document.  Extra hypothesis script_ok
+     (XV.PatcherProofs; checkable by script_okb): along the script the prefixes
+     that getpath prints are bound in the namespaces= mapping, names are
+     printable, and no InsertNamespace is for the default namespace (the shipped
+     handler fails on nsmap[None]).
+   Proofs: XV.PipelineProofs, XV.MatcherProofs, XV.DifferSound, XV.PatcherProofs. *)
+From Coq Require Import List NArith ZArith Bool Arith.
+Import ListNotations.
+Require Import XV.Str XV.Json XV.TextFormat XV.Forest XV.Matcher XV.Differ XV.Spec XV.WF
+               XV.Path XV.PatcherDSL XV.Render XV.Gen.TextTables XV.Gen.PatcherProg
+               XV.DifferSound XV.PatcherProofs XV.Pipeline XV.PipelineProofs.
+
+Theorem C01_script_sound :
+  forall (sim : Type) (sim_ltb sim_leb : sim -> sim -> bool) (sim_is_one : sim -> bool)
+         (zero one : sim) (leaf_sim : str -> str -> sim) (combine : sim -> nat -> nat -> sim)
+         (o : mopts sim) (L R : forest) (rootL rootR : id) (lns rns : nsmap),
+  sim_leb (oF sim o) zero = false -> sim_is_one zero = false ->
+  wf_forest L rootL -> wf_forest R rootR ->
+  ns_prologue lns rns <> None ->
+  exists script W,
+    diff_model sim sim_ltb sim_leb sim_is_one zero one leaf_sim combine o L R rootL rootR lns rns
+      = Some (script, W)
+    (* every action is applicable as documented, in order, and the run ends in W *)
+    /\ run_spec rootL L script = Some W
+    (* W, below rootL, is the right document *)
+    /\ tree_equivb (tree_map_attrs (node_attribs_d (oignored sim o)) (to_tree (S (fnext W)) W rootL))
+                   (tree_map_attrs (node_attribs_d (oignored sim o)) (to_tree (S (fnext R)) R rootR)) = true.
+Proof.
+  intros sim sim_ltb sim_leb sim_is_one zero one leaf_sim combine o L R rootL rootR lns rns HF H1.
+  apply diff_model_sound. split; assumption.
+Qed.
+Print Assumptions C01_script_sound.
+
+Theorem C01_no_ignored :
+  forall (sim : Type) (sim_ltb sim_leb : sim -> sim -> bool) (sim_is_one : sim -> bool)
+         (zero one : sim) (leaf_sim : str -> str -> sim) (combine : sim -> nat -> nat -> sim)
+         (o : mopts sim) (L R : forest) (rootL rootR : id) (lns rns : nsmap),
+  sim_leb (oF sim o) zero = false -> sim_is_one zero = false ->
+  oignored sim o = [] ->
+  wf_forest L rootL -> wf_forest R rootR ->
+  ns_prologue lns rns <> None ->
+  exists script W,
+    diff_model sim sim_ltb sim_leb sim_is_one zero one leaf_sim combine o L R rootL rootR lns rns
+      = Some (script, W)
+    /\ run_spec rootL L script = Some W
+    /\ tree_equivb (to_tree (S (fnext W)) W rootL) (to_tree (S (fnext R)) R rootR) = true.
+Proof.
+  intros sim sim_ltb sim_leb sim_is_one zero one leaf_sim combine o L R rootL rootR lns rns HF H1 Hi HL HR Hns.
+  destruct (diff_model_sound sim sim_ltb sim_leb sim_is_one zero one leaf_sim combine
+              o L R rootL rootR lns rns (conj HF H1) HL HR Hns) as (script & W & E1 & E2 & E3).
+  exists script, W. rewrite Hi in E3. apply doc_equiv_nil in E3. auto.
+Qed.
+Print Assumptions C01_no_ignored.
+
+Theorem C01_every_matching :
+  forall (ignored : list str) (L R : forest) (rootL rootR : id) (m : list (id * id)),
+  wf_forest L rootL -> wf_forest R rootR -> valid_matching L R rootL rootR m ->
+  let s := gen_script ignored R rootR L rootL m in
+  (* the Python code raises nowhere *)
+  serr s = false
+  (* replaying the emitted actions from L by their documented meaning succeeds
+     and yields exactly the differ's working tree *)
+  /\ (exists T, run_spec rootL L (out s) = Some T /\ forest_ext_eq T (W s))
+  (* which is the right document *)
+  /\ tree_equivb (tree_map_attrs (node_attribs_d ignored) (to_tree (S (fnext (W s))) (W s) rootL))
+                 (tree_map_attrs (node_attribs_d ignored) (to_tree (S (fnext R)) R rootR)) = true.
+Proof. exact gen_script_sound. Qed.
+Print Assumptions C01_every_matching.
+
+Theorem C01_roundtrip :
+  forall (sim : Type) (sim_ltb sim_leb : sim -> sim -> bool) (sim_is_one : sim -> bool)
+         (zero one : sim) (leaf_sim : str -> str -> sim) (combine : sim -> nat -> nat -> sim)
+         (o : mopts sim) (L R : forest) (rootL rootR : id) (lns rns : nsmap)
+         (pe : penv) (root_nsmap : list (option str * str)),
+  sim_leb (oF sim o) zero = false -> sim_is_one zero = false ->
+  wf_forest L rootL -> wf_forest R rootR ->
+  ns_prologue lns rns <> None ->
+  (* prefix policy: the paths of the script can be printed and resolved *)
+  (forall script W,
+     diff_model sim sim_ltb sim_leb sim_is_one zero one leaf_sim combine o L R rootL rootR lns rns
+       = Some (script, W) ->
+     script_ok pe rootL (nsmap_env root_nsmap) L script) ->
+  exists script W gs T',
+    (* diff *)
+    diff_model sim sim_ltb sim_leb sim_is_one zero one leaf_sim combine o L R rootL rootR lns rns
+      = Some (script, W)
+    (* the actions as the API yields them *)
+    /\ render_script pe rootL L script = Some gs
+    (* patch: no error *)
+    /\ patch actions_sig true rootL patcher_progs L root_nsmap gs = POk T'
+    (* the patched tree is the differ's final tree ... *)
+    /\ forest_ext_eq T' W
+    (* ... and equal to the right document *)
+    /\ tree_equivb (tree_map_attrs (node_attribs_d (oignored sim o)) (to_tree (S (fnext T')) T' rootL))
+                   (tree_map_attrs (node_attribs_d (oignored sim o)) (to_tree (S (fnext R)) R rootR)) = true.
+Proof.
+  intros sim sim_ltb sim_leb sim_is_one zero one leaf_sim combine o L R rootL rootR lns rns pe root_nsmap
+         HF H1 HL HR Hns Hok.
+  destruct (diff_model_sound sim sim_ltb sim_leb sim_is_one zero one leaf_sim combine
+              o L R rootL rootR lns rns (conj HF H1) HL HR Hns) as (script & W & E1 & E2 & E3).
+  destruct (render_script_total pe rootL script L W E2) as [gs Hgs].
+  destruct (patch_replays_script pe rootL L root_nsmap script W gs HL E2 Hgs (Hok script W E1))
+    as (T' & P1 & P2).
+  exists script, W, gs, T'. repeat (split; [assumption|]).
+  exact (doc_equiv_ext (oignored sim o) T' W rootL R rootR P2 E3).
+Qed.
+Print Assumptions C01_roundtrip.
+
+(* Non-vacuity.  L = <r><a k="1" i="7">x</a><b/></r>,
+   R = <r><b/><a k="2" i="8">y</a><!--c-->t</r>, ignored_attrs = ["i"], F = 50%,
+   similarities in percent (nat).  The hypotheses hold and the conclusion
+   computes: the script moves <a>, updates k, sets the text, inserts the comment
+   and its tail; replaying it on L gives R up to the ignored attribute i (and NOT
+   exactly R: i="7" is still there). *)
+Example C01_example :
+  let L := mk_forest [(0, [1; 2])]
+            [(0, Lab (TElem [114%N]) [] None None);
+             (1, Lab (TElem [97%N]) [([107%N], [49%N]); ([105%N], [55%N])] (Some [120%N]) None);
+             (2, Lab (TElem [98%N]) [] None None)] 3 in
+  let R := mk_forest [(0, [1; 2; 3])]
+            [(0, Lab (TElem [114%N]) [] None None);
+             (1, Lab (TElem [98%N]) [] None None);
+             (2, Lab (TElem [97%N]) [([107%N], [50%N]); ([105%N], [56%N])] (Some [121%N]) None);
+             (3, Lab TComment [] (Some [99%N]) (Some [116%N]))] 4 in
+  let leaf := fun a b : str => if str_eqb a b then 100 else
+              match a, b with x :: _, y :: _ => if N.eqb x y then 60 else 10 | _, _ => 10 end in
+  let comb := fun m c n : nat => if Nat.ltb 0 n && Nat.eqb c n then m else m * 70 / 100 in
+  let is_one := fun x => Nat.eqb x 100 in
+  let o := MOpts nat 50 [] false false [[105%N]] in
+  let lns : nsmap := [(None, [117%N])] in
+  let rns : nsmap := [(None, [117%N]); (Some [112%N], [118%N])] in
+  let script := [IInsNs (Some [112%N]) [118%N]; IMove 1 0 1; IUpdAttr 1 [107%N] [50%N];
+                 IText 1 (Some [121%N]); IInsertComment 0 2 (Some [99%N]) 3; ITail 3 (Some [116%N])] in
+  (* hypotheses *)
+  Nat.leb (oF nat o) 0 = false /\ is_one 0 = false /\
+  wf_forest L 0 /\ wf_forest R 0 /\ ns_prologue lns rns <> None /\
+  (* conclusion *)
+  option_map fst (diff_model nat Nat.ltb Nat.leb is_one 0 100 leaf comb o L R 0 0 lns rns) = Some script /\
+  match run_spec 0 L script with
+  | Some T => tree_equivb (tree_map_attrs (node_attribs_d [[105%N]]) (doc_tree T 0))
+                          (tree_map_attrs (node_attribs_d [[105%N]]) (doc_tree R 0)) = true
+              /\ tree_equivb (doc_tree T 0) (doc_tree R 0) = false
+  | None => False
+  end.
+Proof.
+  cbv zeta.
+  split; [reflexivity|]. split; [reflexivity|].
+  split; [apply wf_forestb_sound; vm_compute; reflexivity|].
+  split; [apply wf_forestb_sound; vm_compute; reflexivity|].
+  split; [vm_compute; discriminate|].
+  split; [vm_compute; reflexivity|].
+  vm_compute. split; reflexivity.
+Qed.
+Print Assumptions C01_example.
